@@ -26,19 +26,19 @@ func register(s *propSpec) {
 // laterRules: one-line statements of the rules added after the per-property explanations were written.
 var laterRules = map[string]string{
 	"C01": "coinbase-maturity comparisons in the wallet package have the canonical relation; only the owner, the expiry sweep or a confirmed spend ends a lease (C12's rules).",
-	"C02": "an iterator's reposition seeks exactly the position it is given.",
-	"C03": "every address built from a derived extended key is recorded for derive-on-unlock; the account-cache invalidation evicts on every path.",
+	"C02": "an iterator's reposition seeks exactly the position it is given; a rolled back spend restores every credit that still exists (existence asked of the store, not read off the amount); flag bits are typed.",
+	"C03": "every address built from a derived extended key is recorded for derive-on-unlock; the account-cache invalidation evicts on every path; no key is used after it or its neutered twin was zeroed; the account schema override is asked for on both branches.",
 	"C04": "live crypto keys captured by function literals are used under the manager mutex; the unlocked flag is set last.",
-	"C05": "the unlocked flag is set last; evicted accounts are wiped first.",
-	"C06": "the wallet locker grants an unlock hold only when the manager is not locked.",
+	"C05": "the unlocked flag is set last; evicted accounts and evicted address objects are wiped first; the wipe primitive loops over the whole slice.",
+	"C06": "the wallet locker grants an unlock hold only when the manager is not locked; explicit PSBT inputs are distinct; input values handed to the signer are the coins' own amounts.",
 	"C07": "the change output is sized 8 + prefix + script; the dust test covers the serialized output; the P2PKH script size constant covers the key sizes the wallet holds (known finding F36).",
 	"C08": "a cache-miss load uses the address the cache was asked for; readers of hashed buckets hash.",
 	"C10": "between a write and a success return the write's error has been looked at (rule D).",
-	"C12": "the outpoints handed to a rescan include leased outputs.",
+	"C12": "the outpoints handed to a rescan and to the recovery include leased outputs; the stored expiry is the given instant; a lease is not mirrored into the timeless in-memory lock set.",
 	"C13": "record key and output index of a previous-output script fetch come from one source; every input of a mined record is looked at.",
 	"C15": "PutSyncedTo leaves no hash above the stamped height; the bitcoind block filter announces every block it is asked to notify; a recovery batch's stamps and transactions share one database transaction.",
-	"C16": "the recovery starts at the birthday block the startup path may just have re-based.",
-	"C18": "a queue-owning client's shutdown always stops the queue.",
+	"C16": "the recovery starts at the birthday block the startup path may just have re-based; the compact-filter watch list covers every request component; a neutrino recovery waits for a synced backend.",
+	"C18": "a queue-owning client's shutdown always stops the queue; a transaction is announced once per pass; reorganised branches are enqueued in chain order.",
 	"C19": "the upgrade's database transaction rolls back on error and panic (C11-R1 taken over); version writers report failed writes.",
 	"C20": "the function the recorded transaction is handed to cannot fail before the send without removing it; the backend's answer is the searched text in every error mapping; forgetting a transaction ends no lease.",
 }
